@@ -32,8 +32,8 @@ def _safe_real(mod, case):
 
 def run_shard(args):
     prop, cases, use_model = args
-    mod = load_prop(prop)
     C.ensure_repo_on_path()
+    mod = load_prop(prop)
     out = {'n': 0, 'nontrivial': set(), 'mismatch': [], 'violations': [], 'stats': {}, 'precond': 0,
            'model_errors': 0}
     reals = []
@@ -140,8 +140,8 @@ def check(prop, tier):
     t0 = time.time()
     seed = int(os.environ.get('VERIF_SEED', '0'))
     tier = os.environ.get('VERIF_TIER', tier)
-    mod = load_prop(prop)
     C.ensure_repo_on_path()
+    mod = load_prop(prop)
     ev = {'property_id': prop, 'tier': tier, 'seed': seed, 'level': 'proof', 'violations': 0}
     lines = []
 
@@ -309,8 +309,8 @@ def check(prop, tier):
 def replay(path):
     payload = json.load(open(path))
     prop = payload['property']
-    mod = load_prop(prop)
     C.ensure_repo_on_path()
+    mod = load_prop(prop)
     if payload.get('case') is None:
         print('replay %s: no concrete failing input was found; broken obligations: %s' % (path, payload.get('broken')))
         return 1
